@@ -265,6 +265,71 @@ def r3_5(ctx):
         ctx.bad("R3.5", fi.module, fi.qual, "self.sequences = self.get_sequences_from_folder()", "after pack the in-memory sequences still hold pre-pack message numbers", fi.node.lineno)
 
 
+def r3_5b(ctx):
+    """A pack renumbers every message file; it keeps the UID list as it is, position by position.  That is sound only for a
+    folder whose files are exactly the messages the mailbox knows: a file delivered since the last look would be swept into
+    `msg_keys` without a UID (EXISTS counts one more than can be addressed, and the next resync re-numbers every UID).  So
+    wherever the management task packs, it has just reconciled the folder and found nothing new: `_pack_if_necessary()` is
+    reached only through `check_new_msgs_and_flags()` having returned false."""
+    p = ctx.p
+    n = 0
+    for fi in p.funcs_in("mbox"):
+        packs = [c for c in calls_in(fi.node) if call_name(c) == "_pack_if_necessary"]
+        if not packs or fi.name == "_pack_if_necessary":
+            continue
+        ctx.analysed(fi)
+        g = ctx.cfg(fi)
+        par = parmap(fi)
+        for c in packs:
+            n += 1
+            cur, in_loop = c, False
+            while cur in par:
+                cur = par[cur]
+                if isinstance(cur, (ast.While, ast.For, ast.AsyncFor)):
+                    in_loop = True
+            if not in_loop:
+                # start-up: Mailbox.new() reconciles the folder immediately before it starts this task
+                ctx.ok("R3.5", where(fi), "start-up pack (before the command loop): the folder was reconciled by Mailbox.new() just before the task was started", nontrivial=False)
+                continue
+            pn = [x.id for x in g.nodes if x.ast is not None and x.kind == "stmt" and any(y is c for y in ast.walk(x.ast))]
+            ctx.require(pn, f"{fi.qual}: CFG node of the pack call not found")
+            resync = {x.id for x in g.nodes if x.ast is not None and x.kind == "stmt" and any(call_name(y) == "check_new_msgs_and_flags" for y in calls_in(x.ast))}
+            # the variable the resync's verdict is kept in
+            rv = {norm(g.nodes[r].ast.targets[0]) for r in resync if isinstance(g.nodes[r].ast, ast.Assign)}
+            hit = flow.feasible_paths_exist(
+                g, g.entry, set(pn), lambda e: "changed" if isinstance(e, ast.Name) and e.id in rv else None, labels=flow.ALL,  # the idle chores run in the `except TimeoutError` arm
+                kills=lambda m: {"changed"} if m in resync else set(), gens=lambda m: {"resynced": True} if m in resync else {},
+                accept=lambda m, f: not (f.get("resynced") is True and f.get("changed") is False),
+            ) if True else None
+            ctx.paths_explored += 1
+            ctx.require(pn[0] in flow.reach(g, [g.entry], flow.ALL), f"{fi.qual}: the pack call is not reachable in the CFG")
+            if hit is None:
+                ctx.ok("R3.5", where(fi), "the folder is packed only right after a resync that found nothing new")
+            else:
+                ctx.bad("R3.5", fi.module, fi.qual, "_pack_if_necessary() not behind `changed = await check_new_msgs_and_flags(); if not changed`", "the folder can be packed without having been reconciled first (or although the reconcile found changes): a message delivered since the last look is renumbered into msg_keys without a UID - EXISTS counts a message nobody can address, and the next resync gives every message a new UID under the same UIDVALIDITY", c.lineno, flow.fmt_path(g, hit[0]))
+    ctx.floor("R3.5b", n, 1, "places that pack the folder")
+
+
+def r3_7(ctx):
+    """_rebuild_index_dicts() is the one place the reverse indexes (key -> position, UID -> position) are made to agree with
+    the lists.  Callers invoke it after every kind of change - also after changes that keep the lengths (a pack renumbers
+    every key; a reset and refill) - so it rebuilds both maps from the lists unconditionally: no early return, no test."""
+    from .common import pm_of
+    p = ctx.p
+    fi = p.func("mbox.Mailbox._rebuild_index_dicts")
+    ctx.analysed(fi)
+    body = [s for s in fi.node.body if not (isinstance(s, ast.Expr) and isinstance(s.value, ast.Constant))]
+    cond = [x for x in body_walk(fi.node) if isinstance(x, (ast.If, ast.Return, ast.While, ast.Try, ast.Raise)) and not (isinstance(x, ast.Return) and x is body[-1] and x.value is None)]
+    pm = pm_of(p, fi)
+    both = pm.has("self._msg_key_to_idx = {k: i for i, k in enumerate(self.msg_keys)}") and pm.has("self._uid_to_idx = {u: i for i, u in enumerate(self.uids)}")
+    if both and not cond:
+        ctx.ok("R3.7", where(fi), "both reverse indexes are rebuilt from the lists, unconditionally")
+    elif cond:
+        ctx.bad("R3.7", fi.module, fi.qual, norm(cond[0], 80), "_rebuild_index_dicts() does not always rebuild: a change that keeps the lengths (a pack renumbers every key) leaves the key -> position map pointing at the old keys - EXPUNGE / QUIT then skip or remove the wrong list entries, FETCH reports another message's number", cond[0].lineno)
+    else:
+        ctx.bad("R3.7", fi.module, fi.qual, "{k: i for i, k in enumerate(self.msg_keys)} / {u: i for i, u in enumerate(self.uids)}", "_rebuild_index_dicts() no longer maps every key and every UID to its position in the lists", fi.node.lineno)
+
+
 def r3_6(ctx):
     """msg_keys and uids are parallel lists: position i of one belongs to position i of the other.  Readers that are not queued
     behind the mailbox's commands (POP3 reads, the resync, get_msg_by_uid's staleness guard compares only `uids`) run whenever
@@ -311,7 +376,9 @@ def run(ctx):
     ctx.do(r3_1_2)
     ctx.do(r3_3)
     ctx.do(r3_5)
+    ctx.do(r3_5b)
     ctx.do(r3_6)
+    ctx.do(r3_7)
     from . import c10, c12
     ctx.do(c10.r10_3)
     ctx.do(c10.r10_4)
